@@ -118,6 +118,22 @@ class StubRng:
         self.orders.append(o)
         return np.array(o, dtype=int)
 
+    # other ways of drawing a visiting order from a generator: the same forced / scripted order, delivered in that API's form
+    def shuffle(self, x, axis=0):
+        o = self.permutation(list(x))
+        for i, v in enumerate(o):
+            x[i] = type(x[i])(v) if not isinstance(x, np.ndarray) else v
+
+    def permuted(self, x, axis=None, out=None):
+        return self.permutation(list(np.asarray(x).ravel()))
+
+    def __getattr__(self, name):            # anything else: a real generator (its draws cannot be forced, only used)
+        if name.startswith("__"):
+            raise AttributeError(name)
+        if self.real is None:
+            self.real = np.random.default_rng(0)
+        return getattr(self.real, name)
+
 
 # ----------------------------------------------------------------------------- reference: everything the rule allows
 def allowed_results(ls, std, ncand, init):
